@@ -650,3 +650,374 @@ Proof. intros Hx Hh. simpl. rewrite Hh. unfold ext_allowed. rewrite Hx. reflexiv
 Theorem vars_use_denied E ap p :
   env_on (e_tv E) = false -> tpl_init E false ap (Some p) = (SigmaErr E_Security, []).
 Proof. intros Ht. unfold tpl_init. rewrite Ht. reflexivity. Qed.
+
+(* ---------------------------------------------------------------------------------------- *)
+(* C16_doc_irrelevant: the opt-in keys of a document do not influence what is loaded *)
+
+(* rewriting the list value bound to one key *)
+Definition G (key : str) (h : yv -> yv) (kv : str * yv) : str * yv :=
+  match kv with
+  | (k, YList l) => if str_eqb key k then (k, YList (map h l)) else kv
+  | _ => kv
+  end.
+
+Lemma G_fst key h kv : fst (G key h kv) = fst kv.
+Proof. destruct kv as [k [| | | |l|]]; simpl; auto. destruct (str_eqb key k); reflexivity. Qed.
+
+Lemma str_eqb_sym a b : str_eqb a b = str_eqb b a.
+Proof.
+  destruct (str_eqb a b) eqn:E1, (str_eqb b a) eqn:E2; auto.
+  - apply str_eqb_eq in E1. subst. rewrite str_eqb_refl in E2. discriminate.
+  - apply str_eqb_eq in E2. subst. rewrite str_eqb_refl in E1. discriminate.
+Qed.
+
+Lemma lookup_G key h k m :
+  lookup k (map (G key h) m) =
+  match lookup k m with
+  | Some (YList l) => if str_eqb key k then Some (YList (map h l)) else Some (YList l)
+  | x => x
+  end.
+Proof.
+  induction m as [|[k' v] m IH]; [reflexivity|].
+  cbn [map lookup]. destruct (G key h (k', v)) as [k'' v'] eqn:EG.
+  assert (k'' = k') by (pose proof (G_fst key h (k', v)) as Hf; rewrite EG in Hf; exact Hf). subst k''.
+  destruct (str_eqb k k') eqn:Ek; [|exact IH].
+  apply str_eqb_eq in Ek. subst k'. unfold G in EG.
+  destruct v as [| | | |l|]; try (inversion EG; reflexivity).
+  destruct (str_eqb key k); inversion EG; reflexivity.
+Qed.
+
+Lemma lookup_G_other key h k m : str_eqb key k = false -> lookup k (map (G key h) m) = lookup k m.
+Proof. intros H. rewrite lookup_G, H. destruct (lookup k m) as [[| | | |l|]|]; reflexivity. Qed.
+
+Lemma remove_keys_G ks key h m : remove_keys ks (map (G key h) m) = map (G key h) (remove_keys ks m).
+Proof.
+  unfold remove_keys. induction m as [|kv m IH]; simpl; [reflexivity|].
+  rewrite G_fst. destruct (negb (mem_str (fst kv) ks)); simpl; rewrite IH; reflexivity.
+Qed.
+
+Lemma lookup_remove k ks m : mem_str k ks = false -> lookup k (remove_keys ks m) = lookup k m.
+Proof.
+  intros H. unfold remove_keys. induction m as [|[k' v] m IH]; simpl; [reflexivity|].
+  destruct (str_eqb k k') eqn:Ek.
+  - apply str_eqb_eq in Ek. subst k'. rewrite H. simpl. rewrite str_eqb_refl. reflexivity.
+  - destruct (negb (mem_str k' ks)); simpl; [rewrite Ek|]; exact IH.
+Qed.
+
+Lemma remove_keys_sub ks1 ks2 m :
+  (forall k, mem_str k ks1 = true -> mem_str k ks2 = true) ->
+  remove_keys ks2 (remove_keys ks1 m) = remove_keys ks2 m.
+Proof.
+  intros H. unfold remove_keys. induction m as [|[k v] m IH]; simpl; [reflexivity|].
+  destruct (mem_str k ks1) eqn:E1; simpl.
+  - rewrite (H k E1). simpl. exact IH.
+  - destruct (mem_str k ks2); simpl; rewrite IH; reflexivity.
+Qed.
+
+Lemma remove_keys_idem ks m : remove_keys ks (remove_keys ks m) = remove_keys ks m.
+Proof. apply remove_keys_sub. auto. Qed.
+
+Lemma check_params_G acc req key h ps : check_params acc req (map (G key h) ps) = check_params acc req ps.
+Proof.
+  unfold check_params. f_equal.
+  - induction ps as [|kv ps IH]; simpl; [reflexivity|]. rewrite G_fst, IH. reflexivity.
+  - induction req as [|r req IHr]; simpl; [reflexivity|]. rewrite IHr. f_equal.
+    rewrite lookup_G. destruct (lookup r ps) as [[| | | |l|]|]; try reflexivity.
+    destruct (str_eqb key r); reflexivity.
+Qed.
+
+Lemma find_key_G {A} key h (onlist : list yv -> A) other none m :
+  find_key key onlist other none (map (G key h) m) = find_key key (fun l => onlist (map h l)) other none m.
+Proof.
+  induction m as [|[k v] m IH]; simpl; [reflexivity|].
+  destruct v as [| | | |l|]; simpl; try (destruct (str_eqb key k); [reflexivity | exact IH]).
+  destruct (str_eqb key k) eqn:Ek; simpl; rewrite Ek; [reflexivity | exact IH].
+Qed.
+
+Lemma find_key_remove {A} key ks (onlist : list yv -> A) other none m :
+  mem_str key ks = false ->
+  find_key key onlist other none (remove_keys ks m) = find_key key onlist other none m.
+Proof.
+  intros H. unfold remove_keys. induction m as [|[k v] m IH]; simpl; [reflexivity|].
+  destruct (str_eqb key k) eqn:Ek.
+  - apply str_eqb_eq in Ek. subst k. rewrite H. simpl. rewrite str_eqb_refl. reflexivity.
+  - destruct (negb (mem_str k ks)); simpl; [rewrite Ek|]; exact IH.
+Qed.
+
+Lemma find_key_ext {A} key (on1 on2 : list yv -> A) other none m :
+  (forall k l, In (k, YList l) m -> on1 l = on2 l) ->
+  find_key key on1 other none m = find_key key on2 other none m.
+Proof.
+  induction m as [|[k v] m IH]; intros H; simpl; [reflexivity|].
+  destruct (str_eqb key k).
+  - destruct v; try reflexivity. apply (H k). left. reflexivity.
+  - apply IH. intros k' l' Hin. apply (H k'). right. exact Hin.
+Qed.
+
+(* constructors do not look at the rewritten key *)
+Ltac lk := repeat (rewrite lookup_G_other by reflexivity).
+
+Lemma ext_ctor_G kind key h ps flag :
+  str_eqb key k_path = false -> str_eqb key k_url = false -> str_eqb key k_cmd = false ->
+  str_eqb key k_format = false -> str_eqb key k_filter = false ->
+  str_eqb key k_include = false -> str_eqb key k_exclude = false ->
+  ext_ctor kind (map (G key h) ps) flag = ext_ctor kind ps flag.
+Proof.
+  intros H1 H2 H3 H4 H5 H6 H7. unfold ext_ctor. rewrite check_params_G.
+  assert (Ek : str_eqb key (src_key kind) = false).
+  { unfold src_key. destruct (kind =? 0); [exact H1|]. destruct (kind =? 1); [exact H2 | exact H3]. }
+  rewrite (lookup_G_other key h (src_key kind)) by exact Ek.
+  unfold ext_postinit_ok, is_none, src_of, get_sel, sel_field.
+  rewrite !(lookup_G_other key h k_format), !(lookup_G_other key h k_filter), !(lookup_G_other key h k_include),
+          !(lookup_G_other key h k_exclude), !(lookup_G_other key h k_path), !(lookup_G_other key h k_url),
+          !(lookup_G_other key h k_cmd) by assumption.
+  reflexivity.
+Qed.
+
+Lemma wild_ctor_G key h ps :
+  str_eqb key k_include = false -> str_eqb key k_exclude = false ->
+  wild_ctor (map (G key h) ps) = wild_ctor ps.
+Proof.
+  intros H6 H7. unfold wild_ctor, is_none, get_sel, sel_field. rewrite check_params_G.
+  rewrite !(lookup_G_other key h k_include), !(lookup_G_other key h k_exclude) by assumption. reflexivity.
+Qed.
+
+Lemma plain_ctor_G acc req key h ps : plain_ctor acc req (map (G key h) ps) = plain_ctor acc req ps.
+Proof. unfold plain_ctor. rewrite check_params_G. reflexivity. Qed.
+
+Lemma tpl_ctor_G E tv ap key h ps :
+  str_eqb key k_template = false -> str_eqb key k_path = false -> str_eqb key k_vars = false ->
+  tpl_ctor E tv ap (map (G key h) ps) = tpl_ctor E tv ap ps.
+Proof.
+  intros H1 H2 H3. unfold tpl_ctor, is_none. rewrite check_params_G.
+  rewrite !(lookup_G_other key h k_template), !(lookup_G_other key h k_path), !(lookup_G_other key h k_vars) by assumption.
+  reflexivity.
+Qed.
+
+Lemma strip3_sub k : mem_str k [k_tv; k_ap; k_ext] = true -> mem_str k excl_keys = true.
+Proof.
+  unfold mem_str. simpl. intros H.
+  repeat (apply orb_true_iff in H; destruct H as [H|H]); try discriminate;
+    apply str_eqb_eq in H; subst k; reflexivity.
+Qed.
+
+Lemma inst_item_strip :
+  forall n d ext, (ysize d < n)%nat -> inst_item ext (strip_item d) = inst_item ext d.
+Proof.
+  induction n as [|n IH]; intros d ext Hs; [lia|].
+  destruct d as [| | | |l|m]; try reflexivity.
+  change (strip_item (YMap m)) with (YMap (remove_keys [k_tv; k_ap; k_ext] (map (G k_items strip_item) m))).
+  set (m' := remove_keys [k_tv; k_ap; k_ext] (map (G k_items strip_item) m)).
+  assert (Et : lookup k_type m' = lookup k_type m).
+  { unfold m'. rewrite lookup_remove by reflexivity. apply lookup_G_other. reflexivity. }
+  assert (Eps : remove_keys excl_keys m' = map (G k_items strip_item) (remove_keys excl_keys m)).
+  { unfold m'. rewrite remove_keys_sub by exact strip3_sub. apply remove_keys_G. }
+  assert (Eg : forall x, guard m' x = guard m x).
+  { intros x. unfold guard, item_applies, m'.
+    rewrite !(lookup_remove k_rule_conditions) by reflexivity.
+    rewrite !(lookup_G_other k_items strip_item k_rule_conditions) by reflexivity. reflexivity. }
+  assert (Ef : forall (onlist : list yv -> outcome node) other none,
+             find_key k_items onlist other none m' = find_key k_items (fun l => onlist (map strip_item l)) other none m).
+  { intros. unfold m'. rewrite find_key_remove by reflexivity. apply find_key_G. }
+  cbn [inst_item]. rewrite Et. destruct (lookup k_type m) as [[| | |ty| |]|]; try reflexivity.
+  rewrite Eps. rewrite !ext_ctor_G, wild_ctor_G, plain_ctor_G, check_params_G by reflexivity.
+  rewrite Ef.
+  erewrite (find_key_ext k_items (fun l => obind (omap (inst_item false) (map strip_item l)) (fun ch => Ok (NNest ch)))
+                         (fun l => obind (omap (inst_item false) l) (fun ch => Ok (NNest ch)))).
+  - destruct (str_eqb ty t_file); [destruct (catch_o _); simpl; rewrite ?Eg; reflexivity|].
+    destruct (str_eqb ty t_http); [destruct (catch_o _); simpl; rewrite ?Eg; reflexivity|].
+    destruct (str_eqb ty t_cmd); [destruct (catch_o _); simpl; rewrite ?Eg; reflexivity|].
+    destruct (str_eqb ty t_wild); [destruct (catch_o _); simpl; rewrite ?Eg; reflexivity|].
+    destruct (str_eqb ty t_set_state); [destruct (catch_o _); simpl; rewrite ?Eg; reflexivity|].
+    destruct (str_eqb ty t_nest); [destruct (catch_o _); simpl; rewrite ?Eg; reflexivity|].
+    reflexivity.
+  - intros k l Hin. rewrite omap_map. erewrite omap_ext; [reflexivity|].
+    intros x Hx. apply IH. pose proof (ysize_list x l Hx). pose proof (ysize_map k (YList l) m Hin). lia.
+Qed.
+
+Lemma map_nil_iff {A B} (f : A -> B) l : match map f l with [] => true | _ => false end = match l with [] => true | _ => false end.
+Proof. destruct l; reflexivity. Qed.
+
+Lemma inst_post_strip E tv ap d : inst_post E tv ap (strip_item d) = inst_post E tv ap d.
+Proof.
+  destruct d as [| | | |l|m]; try reflexivity.
+  change (strip_item (YMap m)) with (YMap (remove_keys [k_tv; k_ap; k_ext] (map (G k_items strip_item) m))).
+  set (m' := remove_keys [k_tv; k_ap; k_ext] (map (G k_items strip_item) m)).
+  assert (Et : lookup k_type m' = lookup k_type m).
+  { unfold m'. rewrite lookup_remove by reflexivity. apply lookup_G_other. reflexivity. }
+  assert (Eps : remove_keys excl_keys m' = map (G k_items strip_item) (remove_keys excl_keys m)).
+  { unfold m'. rewrite remove_keys_sub by exact strip3_sub. apply remove_keys_G. }
+  cbn [inst_post]. rewrite Et. destruct (lookup k_type m) as [[| | |ty| |]|]; try reflexivity.
+  rewrite Eps. rewrite tpl_ctor_G, !plain_ctor_G, check_params_G by reflexivity.
+  rewrite lookup_G. rewrite str_eqb_refl.
+  destruct (lookup k_items (remove_keys excl_keys m)) as [[| | |s|l|mm]|]; try reflexivity.
+  destruct l; reflexivity.
+Qed.
+
+Lemma stripfin_sub (top : bool) k :
+  mem_str k (if top then [k_tv; k_ap; k_ext] else [k_tv; k_ap]) = true ->
+  mem_str k (if top then [k_tv; k_ap; k_ext] else [k_tv; k_ap]) = true.
+Proof. auto. Qed.
+
+Lemma inst_fin_strip :
+  forall n E tv ap top d, (ysize d < n)%nat -> inst_fin E tv ap top (strip_fin top d) = inst_fin E tv ap top d.
+Proof.
+  induction n as [|n IH]; intros E tv ap top d Hs; [lia|].
+  destruct d as [| | | |l|m]; try reflexivity.
+  assert (Y : forall K, mem_str k_finalizers K = false ->
+     (fun m0 =>
+     match lookup k_type (remove_keys K m0) with
+     | None => rerr E_Config
+     | Some tyv =>
+       let ps := remove_keys [k_type] (remove_keys K m0) in
+       let unknown : res node := if top then rerr E_Config else rcrash C_Key in
+       match tyv with
+       | YStr ty =>
+         if str_eqb ty t_template then catch_r (tpl_ctor E tv ap ps)
+         else if str_eqb ty t_nested then
+           find_key k_finalizers
+             (fun l => rbind (rmap (inst_fin E tv ap false) l) (fun ch => rret (NNest ch)))
+             (fun v => rbind (rlift (iter_yv v)) (fun l =>
+                       rbind (rmap (fun _ : yv => @rcrash node C_Attr) l) (fun ch => rret (NNest ch))))
+             (rerr E_Config) m0
+         else if str_eqb ty t_concat then rlift (catch_o (plain_ctor [k_separator; k_prefix; k_suffix] [] ps))
+         else if str_eqb ty t_json then rlift (catch_o (plain_ctor [k_indent] [] ps))
+         else if str_eqb ty t_yaml then rlift (catch_o (plain_ctor [k_indent] [] ps))
+         else unknown
+       | YList _ | YMap _ => rcrash C_Type
+       | _ => unknown
+       end
+     end) (remove_keys K (map (G k_finalizers (strip_fin false)) m))
+     = (fun m0 =>
+     match lookup k_type (remove_keys K m0) with
+     | None => rerr E_Config
+     | Some tyv =>
+       let ps := remove_keys [k_type] (remove_keys K m0) in
+       let unknown : res node := if top then rerr E_Config else rcrash C_Key in
+       match tyv with
+       | YStr ty =>
+         if str_eqb ty t_template then catch_r (tpl_ctor E tv ap ps)
+         else if str_eqb ty t_nested then
+           find_key k_finalizers
+             (fun l => rbind (rmap (inst_fin E tv ap false) l) (fun ch => rret (NNest ch)))
+             (fun v => rbind (rlift (iter_yv v)) (fun l =>
+                       rbind (rmap (fun _ : yv => @rcrash node C_Attr) l) (fun ch => rret (NNest ch))))
+             (rerr E_Config) m0
+         else if str_eqb ty t_concat then rlift (catch_o (plain_ctor [k_separator; k_prefix; k_suffix] [] ps))
+         else if str_eqb ty t_json then rlift (catch_o (plain_ctor [k_indent] [] ps))
+         else if str_eqb ty t_yaml then rlift (catch_o (plain_ctor [k_indent] [] ps))
+         else unknown
+       | YList _ | YMap _ => rcrash C_Type
+       | _ => unknown
+       end
+     end) m).
+  { intros K HK2. cbv beta.
+    rewrite remove_keys_idem, !remove_keys_G.
+    rewrite (lookup_G_other k_finalizers (strip_fin false) k_type) by reflexivity.
+    destruct (lookup k_type (remove_keys K m)) as [[|b|z|ty|l'|m'']|]; try reflexivity.
+    cbv zeta. rewrite tpl_ctor_G, !plain_ctor_G by reflexivity.
+    rewrite find_key_G. rewrite find_key_remove by exact HK2.
+    erewrite (find_key_ext k_finalizers
+                (fun l => rbind (rmap (inst_fin E tv ap false) (map (strip_fin false) l)) (fun ch => rret (NNest ch)))
+                (fun l => rbind (rmap (inst_fin E tv ap false) l) (fun ch => rret (NNest ch)))).
+    - reflexivity.
+    - intros k l Hin. rewrite rmap_map. erewrite rmap_ext; [reflexivity|].
+      intros x Hx. apply IH. pose proof (ysize_list x l Hx). pose proof (ysize_map k (YList l) m Hin). lia. }
+  destruct top.
+  - exact (Y [k_tv; k_ap; k_ext] eq_refl).
+  - exact (Y [k_tv; k_ap] eq_refl).
+Qed.
+
+(* the top level *)
+Definition Hd (kv : str * yv) : str * yv :=
+  match kv with
+  | (k, YList l) =>
+    if str_eqb k k_transformations then (k, YList (map strip_item l))
+    else if str_eqb k k_postprocessing then (k, YList (map strip_item l))
+    else if str_eqb k k_finalizers then (k, YList (map (strip_fin true) l))
+    else kv
+  | _ => kv
+  end.
+
+Lemma Hd_fst kv : fst (Hd kv) = fst kv.
+Proof.
+  destruct kv as [k [| | | |l|]]; simpl; auto.
+  destruct (str_eqb k k_transformations); [reflexivity|].
+  destruct (str_eqb k k_postprocessing); [reflexivity|].
+  destruct (str_eqb k k_finalizers); reflexivity.
+Qed.
+
+Lemma lookup_Hd k m : lookup k (map Hd m) = option_map (fun v => snd (Hd (k, v))) (lookup k m).
+Proof.
+  induction m as [|[k' v] m IH]; [reflexivity|].
+  cbn [map lookup]. destruct (Hd (k', v)) as [k'' v'] eqn:EG.
+  assert (k'' = k') by (pose proof (Hd_fst (k', v)) as Hf; rewrite EG in Hf; exact Hf). subst k''.
+  destruct (str_eqb k k') eqn:Ek; [|exact IH].
+  apply str_eqb_eq in Ek. subst k'. cbn [option_map]. rewrite EG. reflexivity.
+Qed.
+
+Lemma rbind_ext {A B} (x : res A) (f g : A -> res B) : (forall a, f a = g a) -> rbind x f = rbind x g.
+Proof. intros H. destruct x as [[a|c|c] t]; simpl; [rewrite H|..]; reflexivity. Qed.
+
+Lemma get_list_Hd k h m (F : list yv -> res tree) :
+  (forall l, snd (Hd (k, YList l)) = YList (map h l)) ->
+  (forall l, F (map h l) = F l) ->
+  rbind (rlift (get_list k (map Hd m))) F = rbind (rlift (get_list k m)) F.
+Proof.
+  intros H1 H2. unfold get_list. rewrite lookup_Hd.
+  destruct (lookup k m) as [[| | | |l|]|]; cbn [option_map]; try reflexivity.
+  rewrite H1. cbn [iter_yv rlift rbind]. rewrite H2. reflexivity.
+Qed.
+
+Theorem doc_irrelevant E d a : load_dict E (strip_doc d) a = load_dict E d a.
+Proof.
+  destruct d as [| | | |l|m]; try reflexivity.
+  change (strip_doc (YMap m)) with (YMap (map Hd m)). unfold load_dict.
+  assert (Ek : forallb (fun kv => mem_str (fst kv) top_keys) (map Hd m) = forallb (fun kv => mem_str (fst kv) top_keys) m).
+  { induction m as [|kv m IH]; [reflexivity|]. cbn [map forallb]. rewrite Hd_fst, IH. reflexivity. }
+  rewrite Ek. destruct (negb (forallb (fun kv => mem_str (fst kv) top_keys) m)); [reflexivity|].
+  rewrite (get_list_Hd k_transformations strip_item).
+  2: { intros l0. reflexivity. }
+  2: { intros l0. rewrite omap_map. erewrite omap_ext; [reflexivity|].
+       intros x _. apply (inst_item_strip (S (ysize x))). apply Nat.lt_succ_diag_r. }
+  apply rbind_ext. intros its. apply rbind_ext. intros items.
+  rewrite (get_list_Hd k_postprocessing strip_item).
+  2: { intros l0. reflexivity. }
+  2: { intros l0. rewrite rmap_map. erewrite rmap_ext; [reflexivity|]. intros x _. apply inst_post_strip. }
+  apply rbind_ext. intros pds. apply rbind_ext. intros post.
+  rewrite (get_list_Hd k_finalizers (strip_fin true)).
+  2: { intros l0. reflexivity. }
+  2: { intros l0. rewrite rmap_map. erewrite rmap_ext; [reflexivity|].
+       intros x _. apply (inst_fin_strip (S (ysize x))). apply Nat.lt_succ_diag_r. }
+  reflexivity.
+Qed.
+
+Corollary doc_irrelevant_rel E d d' a :
+  same_modulo_optin_keys d d' -> load_dict E d a = load_dict E d' a.
+Proof. unfold same_modulo_optin_keys. intros H. rewrite <- (doc_irrelevant E d a), <- (doc_irrelevant E d' a), H. reflexivity. Qed.
+
+(* ---------------------------------------------------------------------------------------- *)
+(* the other entry points are from_dict with adjusted arguments *)
+Lemma load_yaml_eq E d a src :
+  load_yaml E d a src = load_dict E d {| a_ext := a_ext a; a_tv := a_tv a; a_ap := yaml_paths E (a_ap a) src |}.
+Proof. reflexivity. Qed.
+Lemma load_resolver_eq E d spec :
+  load_resolver E d spec = load_dict E d {| a_ext := false; a_tv := false; a_ap := Some [render (removelast (real E spec))] |}.
+Proof. reflexivity. Qed.
+
+(* a pipeline resolved from a file name never performs any effect unless the environment grants it, and then a
+   vars file is executed only below the directory of the pipeline file *)
+Theorem resolver_contained E d spec :
+  wf_real (real E) ->
+  (forall cs, Forall wf_comp cs -> real E (render cs) = cs) ->   (* realpath is idempotent *)
+  Forall (fun e => exists p, e = EExec (real E p) /\ env_on (e_tv E) = true /\
+                             is_prefix (removelast (real E spec)) (real E p))
+         (snd (load_resolver E d spec)).
+Proof.
+  intros W I. rewrite load_resolver_eq. eapply Forall_impl; [|apply load_trace_gated].
+  intros e (p & -> & G & PA). cbn [a_tv a_ap orb] in G, PA. exists p. split; [reflexivity|]. split; [exact G|].
+  apply path_containment in PA; [|exact W]. destruct PA as (b & [<-|[]] & Hp).
+  rewrite I in Hp; [exact Hp|].
+  pose proof (W spec) as Hs. clear -Hs. induction (real E spec) as [|c cs IH]; [constructor|].
+  inversion Hs; subst. destruct cs; [constructor|]. simpl. constructor; auto.
+Qed.
